@@ -222,8 +222,10 @@ class Param():
             self.all_update_callback.call(complete_name, value_s)
 
             # Once all the parameters are updated call the
-            # callback for "everything updated"
-            if self._check_if_all_updated() and not self.is_updated:
+            # callback for "everything updated". Values can also arrive
+            # (unsolicited) while the TOC is still being downloaded, the TOC
+            # is complete once the Crazyflie is connected.
+            if self.cf.is_connected() and self._check_if_all_updated() and not self.is_updated:
                 self.is_updated = True
                 self._initialized.set()
                 self.all_updated.call()
